@@ -200,17 +200,26 @@ def _alarm(signum, frame):
     raise Watchdog()
 
 def _outcome(fn, seconds=10):
-    """run one recorded call; a call that neither returns nor produces events for `seconds` (generated code looping over a
-    huge count) is cut by an interval timer (main thread only)"""
+    """run one recorded call; a call that neither returns nor produces events within `seconds` of CPU time (generated code looping
+    over a huge count) is cut by an interval timer (main thread only).  The timer counts the process's own CPU time, so a loaded
+    machine does not cut a healthy call."""
+    try:
+        return _outcome1(fn, seconds)
+    except Watchdog:            # the timer fired while the call was being wound up
+        return False, None, "Watchdog"
+
+def _outcome1(fn, seconds):
     import signal
     LAST_PATH[0] = []
     timer = threading.current_thread() is threading.main_thread()
     if timer:
-        old = signal.signal(signal.SIGALRM, _alarm)
-        signal.setitimer(signal.ITIMER_REAL, seconds)
+        old = signal.signal(signal.SIGVTALRM, _alarm)
+        signal.setitimer(signal.ITIMER_VIRTUAL, seconds)
     try:
         return True, fn(), ""
     except BaseException as e:
+        if timer:
+            signal.setitimer(signal.ITIMER_VIRTUAL, 0)
         LAST_PATH[0] = path_list(e) if not isinstance(e, Watchdog) else []
         if isinstance(e, (KeyboardInterrupt, SystemExit)):
             raise
@@ -221,8 +230,8 @@ def _outcome(fn, seconds=10):
         return False, None, type(e).__name__
     finally:
         if timer:
-            signal.setitimer(signal.ITIMER_REAL, 0)
-            signal.signal(signal.SIGALRM, old)
+            signal.setitimer(signal.ITIMER_VIRTUAL, 0)
+            signal.signal(signal.SIGVTALRM, old)
 
 def run_parse(rec, con, data, start=0, kw=None, fault=None):
     "parse_stream on a root stream positioned at start; returns the recorded call"
